@@ -4,7 +4,14 @@ from common import Case, lean_stage, run_cases, load_corpus
 from vlib import Check, Rng
 
 PID = 'C20'
-THEOREMS = []
+THEOREMS = [
+    'Lcdb.C20.parse_grammar',
+    'Lcdb.C20.parse_sound',
+    'Lcdb.C20.parse_complete',
+    'Lcdb.C20.parse_foreign_untouched',
+    'Lcdb.C20.parseFileName_none_of_not_owned',
+    'Lcdb.C20.makeName_parse',
+]
 IMPORTS = ['LcdbModel.Props.C20']
 TARGETS = ['LcdbModel.Props.C20']
 
